@@ -386,7 +386,7 @@ func c17EditRegions(r *an.Run) {
 				inherits = true
 			}
 		}
-		r.Check(!inherits, short(f)+"|first-element-region-start", fill.Pos(), "on every path of an iteration the start of the element's region is set from the list (the previous element's end, its own position, or its own leading comment): on a path that assigns nothing the region keeps the parent's start — the first declaration's region then begins right behind the package name and covers the package clause's trailing comment and free-standing comments in front of the declaration")
+		r.Check(!inherits, short(walk)+"|first-element-region-start", fill.Pos(), "on every path of an iteration the start of the element's region is set from the list (the previous element's end, its own position, or its own leading comment): on a path that assigns nothing the region keeps the parent's start — the first declaration's region then begins right behind the package name and covers the package clause's trailing comment and free-standing comments in front of the declaration")
 	}
 
 	// (c) which comments clamp: commentsFor classifies a comment group by its position relative to the node only
